@@ -11,15 +11,15 @@
 EXTENDS Integers, Sequences, FiniteSets, TLC, Json
 
 TLog == ndJsonDeserialize("trace.ndjson")
-VARIABLES l, startCalls, stopCalls, cancels, okStart, okStop, open, bad
-vars == <<l, startCalls, stopCalls, cancels, okStart, okStop, open, bad>>
+VARIABLES l, startCalls, stopCalls, cancels, okStart, okStop, open, bad, failedStop
+vars == <<l, startCalls, stopCalls, cancels, okStart, okStop, open, bad, failedStop>>
 
-Fresh == startCalls = 0 /\ stopCalls = 0 /\ cancels = 0 /\ okStart = 0 /\ okStop = 0 /\ open = <<>>
+Fresh == startCalls = 0 /\ stopCalls = 0 /\ cancels = 0 /\ okStart = 0 /\ okStop = 0 /\ open = <<>> /\ failedStop = FALSE
 Init == l = 1 /\ Fresh /\ bad = ""
 Ev == TLog[l]
 Put(f, k, v) == [x \in DOMAIN f \cup {k} |-> IF x = k THEN v ELSE f[x]]
 
-Reset == Ev.e = "Reset" /\ startCalls' = 0 /\ stopCalls' = 0 /\ cancels' = 0 /\ okStart' = 0 /\ okStop' = 0 /\ open' = <<>> /\ UNCHANGED bad
+Reset == Ev.e = "Reset" /\ startCalls' = 0 /\ stopCalls' = 0 /\ cancels' = 0 /\ okStart' = 0 /\ okStop' = 0 /\ open' = <<>> /\ failedStop' = FALSE /\ UNCHANGED bad
 
 \* at call time remember what had already happened: decides which results are acceptable
 Call ==
@@ -29,7 +29,7 @@ Call ==
     /\ startCalls' = startCalls + (IF Ev.op = "start" THEN 1 ELSE 0)
     /\ stopCalls' = stopCalls + (IF Ev.op = "stop" THEN 1 ELSE 0)
     /\ cancels' = cancels + (IF Ev.op = "cancel" THEN 1 ELSE 0)
-    /\ UNCHANGED <<okStart, okStop, bad>>
+    /\ UNCHANGED <<okStart, okStop, bad, failedStop>>
 
 Ret ==
     /\ Ev.e = "Ret"
@@ -44,6 +44,7 @@ Ret ==
                [] Ev.op = "stop" /\ Ev.r = "ok" -> IF okStop >= 1 THEN "StopOnce" ELSE IF startCalls = 0 THEN "Result.stop" ELSE ""
                [] Ev.op = "stop" /\ Ev.r = "not-started" -> IF c.okStartBefore >= 1 THEN "Result.stop" ELSE ""
                [] Ev.op = "stop" /\ Ev.r = "already-stopped" -> IF othersStop = 0 /\ cancels = 0 THEN "Result.stop" ELSE ""
+               [] Ev.op = "stop" /\ Ev.r = "stop-failed" -> ""        \* the tree did not terminate within the time-out given
                [] Ev.op = "stop" -> "Result.stop." \o Ev.r
                [] OTHER -> ""
            \* sequential clauses: what was already complete when the call was made
@@ -56,20 +57,25 @@ Ret ==
     /\ okStart' = okStart + (IF Ev.op = "start" /\ Ev.r = "ok" THEN 1 ELSE 0)
     /\ okStop' = okStop + (IF Ev.op = "stop" /\ Ev.r = "ok" THEN 1 ELSE 0)
     /\ open' = [x \in DOMAIN open \ {Ev.p} |-> open[x]]
+    /\ failedStop' = (failedStop \/ (Ev.op = "stop" /\ Ev.r = "stop-failed"))
     /\ UNCHANGED <<startCalls, stopCalls, cancels>>
 
-Hang == Ev.e = "Hang" /\ bad' = (IF bad = "" THEN "NeverHangs" ELSE bad) /\ UNCHANGED <<startCalls, stopCalls, cancels, okStart, okStop, open>>
+Hang == Ev.e = "Hang" /\ bad' = (IF bad = "" THEN "NeverHangs" ELSE bad) /\ UNCHANGED <<startCalls, stopCalls, cancels, okStart, okStop, open, failedStop>>
+\* Stop returns within its time-out: the wait for the tree (alive = milliseconds spent, gor = time-out given, <= 0 means at once)
+StopWaited == /\ Ev.e = "StopWaited"
+              /\ bad' = IF bad = "" /\ Ev.alive > (IF Ev.gor > 0 THEN Ev.gor ELSE 0) + 400 THEN "StopWithinTimeout" ELSE bad
+              /\ UNCHANGED <<startCalls, stopCalls, cancels, okStart, okStop, open, failedStop>>
 
 Final ==
     /\ Ev.e = "Final"
     /\ bad' = IF bad # "" THEN bad
               ELSE IF DOMAIN open # {} \/ Ev.pend > 0 THEN "NeverHangs"
-              ELSE IF okStart >= 1 /\ (okStop >= 1 \/ cancels >= 1) /\ Ev.alive > 0 THEN "StopTerminatesActors"
-              ELSE IF okStart >= 1 /\ (okStop >= 1 \/ cancels >= 1) /\ Ev.gor > 0 THEN "NoGoroutineLeft"
+              ELSE IF ~failedStop /\ okStart >= 1 /\ (okStop >= 1 \/ cancels >= 1) /\ Ev.alive > 0 THEN "StopTerminatesActors"
+              ELSE IF ~failedStop /\ okStart >= 1 /\ (okStop >= 1 \/ cancels >= 1) /\ Ev.gor > 0 THEN "NoGoroutineLeft"
               ELSE ""
-    /\ UNCHANGED <<startCalls, stopCalls, cancels, okStart, okStop, open>>
+    /\ UNCHANGED <<startCalls, stopCalls, cancels, okStart, okStop, open, failedStop>>
 
-Next == l <= Len(TLog) /\ l' = l + 1 /\ (Reset \/ Call \/ Ret \/ Hang \/ Final)
+Next == l <= Len(TLog) /\ l' = l + 1 /\ (Reset \/ Call \/ Ret \/ Hang \/ StopWaited \/ Final)
 Spec == Init /\ [][Next]_vars
 Ok == bad = ""
 Accepted == TLCGet("stats").diameter - 1 = Len(TLog)
